@@ -33,10 +33,9 @@ fn chunk_strat(n: Option<u64>) -> BoxedStrategy<Vec<u8>> {
     let big = n.map_or(300usize, |n| (3 * n as usize + 5).min(400));
     prop_oneof![
         2 => Just(Vec::new()),
-        // single bytes; the two values of the listed finding KF-C15-1 (b"F", b"S") are enumerated
-        // by the fixed cases and kept rare here so that the search continues around them
-        4 => any::<u8>().prop_map(|b| if (b == b'F' || b == b'S') { vec![b, b] } else { vec![b] }),
-        1 => prop_oneof![30 => Just(b"SS".to_vec()), 1 => Just(b"F".to_vec()), 1 => Just(b"S".to_vec())],
+        4 => any::<u8>().prop_map(|b| vec![b]),
+        // the bytes that used to be taken for control messages (repaired; formerly KF-C15-1)
+        1 => prop_oneof![Just(b"F".to_vec()), Just(b"S".to_vec()), Just(b"SS".to_vec())],
         1 => Just(b"FF".to_vec()),
         1 => Just(b"S\n".to_vec()),
         4 => prop::collection::vec(any::<u8>(), 0..24),
